@@ -100,9 +100,18 @@ STATEMENT_STATUS: Dict[str, str] = {
     "C12_cmap_copy": "proved: extending a private CMap built with usecmap leaves the shared CMap = fresh load",
     "nocopy_cex": "proved counter-example: get_encoding without the copy leaks /Differences into later fonts",
     "shared_cache_cex": "proved counter-example: a memo table answered under another document's fresh function returns the other document's value (font cache keyed by name / manager shared across documents)",
-    "not_modelled": "PSLiteralTable/PSKeywordTable interning, FONT_METRICS, PREDEFINED_COLORSPACE, settings.STRICT are checked on the "
-                    "implementation only (unchanged / grown only by names of the document); layout and interpreter are "
-                    "parameters of the theorems (abstract per-page result function)",
+    "C12_intern_idempotent": "proved: PSSymbolTable.intern asked again returns the same symbol and leaves the table unchanged",
+    "C12_intern_monotone": "proved: interning only appends; every name already in the table keeps its symbol (any sequence)",
+    "C12_intern_identity": "proved: the symbol returned for a name has that name whatever the table (history), and symbols obtained around ANY further interning are identical iff the names are equal",
+    "C12_globals_unchanged": "proved (all histories of calls): PREDEFINED_COLORSPACE, FONT_METRICS, STRICT unchanged; literal / keyword tables only grow at the end",
+    "C12_globals_lookup_history": "proved: FONT_METRICS / PREDEFINED_COLORSPACE / STRICT reads after any history = the same reads in a fresh process",
+    "C12_page_state_reset": "proved: the state a page ends in (csmap, current colour spaces, text state, gstack, raised-or-not) does not depend on what the previous page left behind nor on the interned tables",
+    "C12_page_state_history": "proved: every page of a call after ANY history of calls = that page rendered alone from the initial globals (independent of set and order of earlier pages)",
+    "cs_nocopy_cex": "proved counter-example: csmap = PREDEFINED_COLORSPACE without .copy() lets a page's /ColorSpace resources change the default colour space of the next page",
+    "not_modelled": "layout analysis and the glyph/geometry part of the content interpreter are parameters of the theorems (abstract "
+                    "per-page result function); FONT_METRICS is modelled as a digest per entry (number and sum of widths); the "
+                    "interned tables are modelled for the content parser of the modelled operators (document parse interning is "
+                    "checked on the implementation only: grows only by names of the document)",
 }
 
 CLASSIFIERS: Dict[str, Any] = {}
